@@ -29,5 +29,5 @@ def run(ctx):
         ["as C01: go-journal's WAL is modelled and tied by the recorded-trace check",
          "acknowledgement order = log position order (MemAppend assigns positions under the log's lock): assumed by the model, observed by the crash oracle",
          "the write verifier is the start time in nanoseconds: that two instances differ is observed, not provable"],
-        pending=["memLog model (absorption inside the unflushed tail) for group_is_txn_prefix"],
+        pending=[],
         partial=["verifier freshness and file-system layer: oracle on sampled workloads and crash points"])
